@@ -53,7 +53,8 @@ ENDINGS = {
     'UNREADABLE': (PASS_BODY, 'FILE_ACCESS_ERROR', False),
 }
 ENDING_NAMES = sorted(ENDINGS)
-STRUCT_FAULTS = ['twice', 'cycle', 'self', 'missing_suite', 'missing_case', 'syntax_root', 'syntax_sub']
+STRUCT_FAULTS = ['twice', 'twice_other_spelling', 'cycle', 'self', 'missing_suite', 'missing_case', 'syntax_root',
+                 'syntax_sub']
 
 
 def total_runs(tier):
@@ -231,7 +232,17 @@ def build_world(plan, w):
         with open(path, 'w') as f:
             f.write(txt)
 
-    if fault == 'twice':
+    if fault == 'twice_other_spelling':
+        # the same suite file reachable twice through differently spelled paths (a `..` component)
+        os.makedirs(os.path.join(w.home, 'dz'), exist_ok=True)
+        if keys:
+            target = keys[0]
+            add_suite_ref(rootp, os.path.join('dz', '..', suite_path(h, target) if h[target]['ref'] != 'dir' else h[target]['dir']))
+        else:
+            w.write('home/dx/x.suite', '[cases]\n')
+            add_suite_ref(rootp, 'dx/x.suite')
+            add_suite_ref(rootp, 'dz/../dx/x.suite')
+    elif fault == 'twice':
         # a suite reachable twice: the deepest sub-suite is also listed by the root (or listed twice)
         if keys:
             target = keys[0]
@@ -326,7 +337,7 @@ def _probes(plan, hist):
     ex = expected_cases(plan)
     f = plan['struct_fault']
     if f:
-        pr['invalid_' + {'twice': 'twice', 'cycle': 'cycle', 'self': 'cycle', 'missing_suite': 'missing_suite',
+        pr['invalid_' + {'twice': 'twice', 'twice_other_spelling': 'twice', 'cycle': 'cycle', 'self': 'cycle', 'missing_suite': 'missing_suite',
                          'missing_case': 'missing_case', 'syntax_root': 'syntax', 'syntax_sub': 'syntax'}[f]] = 1
     else:
         for c in ex:
